@@ -425,6 +425,9 @@ def streams(tier, rng):
     for a, b in [(1, 1), (2, 2), (4, 4), (8, 8), (1, 2), (2, 4), (4, 8), (1, 8), (0, 1), (3, 3), (5, 8), (1, 0)]:
         x = rbytes(rng, a)
         cases.append((1013, [x, [0] * (b - a) + x if b >= a else x[:b]])); cases.append((1013, [x, rbytes(rng, b)]))
+    for n in list(range(0, 10)) + [16, 255]:      # every ID length 0..9: equal, different, zero-extended
+        x = rbytes(rng, n)
+        cases.append((1013, [x, x])); cases.append((1013, [x, rbytes(rng, n)])); cases.append((1013, [x, [0, 0] + x]))
     reps = 6 if big else 2
     for a in ACTIONS:
         for l1 in LENS:
@@ -628,6 +631,14 @@ def oracle(case, ires, sres):
             return ("C08/CfdpTlv.unpack/prefix-accepted", "incomplete or unknown TLV %s accepted: %s" % (d[:8], ires[:4]))
         if not _doc(ires):
             return ("C08/CfdpTlv.unpack/undocumented-exception", "%s -> error class %d" % (d[:8], code))
+        return None
+    if op == 1013:
+        if len(a[0]) <= 255 and len(a[1]) <= 255:
+            exp = int(int.from_bytes(bytes(a[0]), "big") == int.from_bytes(bytes(a[1]), "big"))
+            if err:
+                return ("C08/EntityIdTlv.__eq__/raises", "comparison of entity IDs %s and %s raised error class %d" % (a[0], a[1], code))
+            if ires[1] != [exp]:
+                return ("C08/EntityIdTlv.__eq__/value", "%s == %s -> %s" % (a[0], a[1], ires))
         return None
     if op == 1006:
         if len(a[1]) <= 255 and (err != (a[0] != a[2]) or (err and code != 6)):
